@@ -417,3 +417,100 @@ func c09StateBeforeEntry(c *Ctx, r *R) {
 		r.Check(ok, "mergeable-uses-latest", vm.Pos(), "verifyMergeable uses the latest attestation state", "verifyMergeable does not load the attestations of FindLatestAttestationsEntry")
 	}
 }
+
+func init() {
+	reg(&eng.Rule{ID: "C09.dismissal", Prop: "C09", Floor: 4,
+		Doc: "Dismissing a code-review approval always takes effect: every success return of Repository.DismissGitHubPullRequestApprover lies behind the storing of a re-signed approval attestation whose approver list is the previous list filtered by `approver != dismissedApprover` (every other approver kept) and whose dismissed list contains the dismissed approver, and the attestations commit's result is what is returned. (A dismissed approver left in the approver list keeps counting towards thresholds.)",
+		Run: c09Dismissal})
+}
+
+func c09Dismissal(c *Ctx, r *R) {
+	fn := r.Fn("(*experimental/gittuf.Repository).DismissGitHubPullRequestApprover")
+	if fn == nil {
+		return
+	}
+	r.Site(1)
+	sets := eng.CallsToMethod(fn, false, "SetGitHubPullRequestApprovalAttestation", "Attestations")
+	sk, ok := oneCall(r, "anchor-set", fn, sets, "SetGitHubPullRequestApprovalAttestation")
+	if !ok {
+		return
+	}
+	cut := eng.NewCut()
+	if !sk.OKPoints(cut) {
+		r.Bad("stored-before-success", sk.Pos(), "the result of storing the updated approval attestation is dropped")
+	} else {
+		mustPass(c, r, "stored-before-success", fn, isSuccessReturn, cut, "success is reported only after the updated attestation was stored", "DismissGitHubPullRequestApprover can report success without storing an updated attestation (the dismissed approver would keep counting)")
+	}
+	// the envelope stored is the freshly signed statement built by NewGitHubPullRequestApprovalAttestation
+	news := eng.CallsTo(fn, false, "internal/attestations.NewGitHubPullRequestApprovalAttestation")
+	nk, ok := oneCall(r, "anchor-new", fn, news, "NewGitHubPullRequestApprovalAttestation")
+	if !ok {
+		return
+	}
+	fromNew := false
+	eng.WalkOperands(sk.Arg(1), 8, func(v ssa.Value) {
+		if k, idx, ok := eng.RootCall(v); ok && idx == 0 && k.Instr == nk.Instr {
+			fromNew = true
+		}
+	})
+	r.Check(fromNew, "stores-new-statement", sk.Pos(), "the stored envelope carries the newly built statement", "the stored envelope is not built from the updated statement")
+	// approvers argument: appended only under approver != dismissedApprover, from a full scan of the previous approvers
+	dis := eng.PParam("dismissedApprover")
+	neq := eng.RelEdges(fn, token.NEQ, eng.PAny(), dis)
+	okA, nApp := true, 0
+	for _, root := range eng.Roots(nk.Arg(3)) {
+		k, _, isCall := eng.RootCall(root)
+		if !isCall || k.Name() != "builtin.append" {
+			continue
+		}
+		nApp++
+		dom := false
+		for _, e := range neq {
+			if eng.EdgeDominates(e, k.Block()) {
+				dom = true
+			}
+		}
+		okA = okA && dom
+	}
+	r.Check(okA && nApp >= 1 && len(neq) >= 1, "approvers-filtered", nk.Pos(), "an approver is kept only if it is not the dismissed one", "the new approver list is not filtered by `approver != dismissedApprover`")
+	heads := eng.LoopsOver(fn, eng.PMethod("GetApprovers", nil))
+	if len(heads) == 1 {
+		scanExhaustive(c, r, "approvers-all-scanned", heads[0], nil, "previous approvers")
+		// every other approver is kept: from the != edge the next element is reached only via the append
+		var apps []ssa.Instruction
+		for _, root := range eng.Roots(nk.Arg(3)) {
+			if k, _, isCall := eng.RootCall(root); isCall && k.Name() == "builtin.append" {
+				apps = append(apps, k.Instr)
+			}
+		}
+		hd := heads[0].Instrs[len(heads[0].Instrs)-1]
+		okK := true
+		for _, e := range neq {
+			if p := eng.FindPath(e.To(), 0, func(in ssa.Instruction) bool { return in == hd }, eng.NewCut().AddInstrs(apps...)); p != nil {
+				okK = false
+			}
+		}
+		r.Check(okK, "other-approvers-kept", nk.Pos(), "every other approver is kept", "an approver other than the dismissed one can be dropped")
+	} else {
+		r.Bad("approvers-all-scanned", nk.Pos(), "expected one loop over predicate.GetApprovers()")
+	}
+	// dismissed list contains the dismissed approver
+	has := false
+	eng.WalkOperands(nk.Arg(4), 6, func(v ssa.Value) {
+		if dis(v) {
+			has = true
+		}
+		for _, el := range eng.VariadicElems(v) {
+			if dis(el) {
+				has = true
+			}
+		}
+	})
+	r.Check(has, "dismissed-recorded", nk.Pos(), "the dismissed approver is recorded in the dismissed list", "the dismissed approver is not added to the dismissed list")
+	// what is returned at the end is the attestations commit's result
+	commits := eng.CallsToMethod(fn, false, "Commit", "Attestations")
+	if ck, ok := oneCall(r, "anchor-commit", fn, commits, "Attestations.Commit"); ok {
+		errPropagates(c, r, "commit-error", ck)
+		mustPass(c, r, "committed-before-success", fn, isNilErrReturn, eng.NewCut().AddInstrs(ck.Instr), "success only after the attestations were committed", "success can be reported without committing the attestations")
+	}
+}
